@@ -78,10 +78,10 @@ FAMS_QUICK = "table:600,rv:24,so2:12,so3:12,se2:12,se3:10,css:10"
 FAMS_THOROUGH = "table:8000,rv:300,so2:150,so3:150,se2:150,se3:120,css:120"
 
 SPACE_STAGES = {
-    "C03": [("interp:spacing", ["interp"], False, False)],
+    "C03": [("interp:spacing", ["interp"], False, False), ("compound:resolution", ["compound"], False, False)],
     "C05": [("interp:steer", ["interp"], False, False)],
     "C16": [("interp:steer", ["interp"], False, False)],
-    "C18": [("metric:radius-test", ["metric"], False, False)],
+    "C18": [("metric:radius-test", ["metric"], False, False), ("compound:resolution", ["compound"], False, False)],
     "C04": [("interp:convexity", ["interp"], False, False)],
     "C09": [("metric", ["metric"], True, False), ("metric:malformed", ["metric"], False, True)],
     "C10": [("interp", ["interp"], True, False), ("interp:malformed", ["interp"], False, True)],
